@@ -494,6 +494,7 @@ func DriveTree(r *rec.Rec, rng *rand.Rand, run, ops int, variant string) {
 			}
 			return s, -1
 		}
+		var steered []int
 		for round := 0; round < 2 && !dead; round++ {
 			s, at := fullInner(round)
 			for tries := 0; at < 0 && tries < 4000 && !dead; tries++ {
@@ -524,12 +525,25 @@ func DriveTree(r *rec.Rec, rng *rand.Rand, run, ops int, variant string) {
 				if len(free) == 0 {
 					break
 				}
-				put(free[rng.Intn(len(free))])
+				k := free[rng.Intn(len(free))]
+				put(k)
+				steered = append(steered, k)
 				if s2 := sh.ShapeInt(); len(s2.Nodes) > at && (s2.Nodes[at].N != 15 || s2.Nodes[at].Level != round) {
 					break
 				}
 			}
 			shapeNow = false
+			// every key that went into the split region, and its neighbours, must be found again
+			for _, k := range steered {
+				lookup(k)
+				lookup(clampK(k + 1))
+			}
+			lookup(clampK(lo))
+			lookup(clampK(hi))
+			if cleanIter {
+				newIter(1)
+				drainIter(1)
+			}
 		}
 		// a short drain through the nodes that have just split (parent links, cleared slots), then the run ends
 		shapeNow = true
